@@ -614,6 +614,37 @@ def uniform_count(ice, tracer, p0, p1):
     return n
 
 
+def tof_bracket(ice, sol, p0, p1):
+    """Physical bracket for the time of flight of a DIRECT ray (depth monotone along the ray) in ice whose
+    index decreases monotonically towards the surface, from the endpoints and the reported launch direction
+    only:  n_min * L_min / c <= tof <= n_max * L_max / c  with n_min / n_max the index at the shallower /
+    deeper endpoint (the ray stays between them), L_min = max(straight distance, dz / cos(theta) at the deeper
+    end) and L_max = dz / cos(theta) at the shallower end (theta grows towards the surface by Snell's law,
+    beta = n sin(theta) constant).  Every term is a bound, not an estimate; 1e-12 relative covers the
+    rounding of these few operations.  Returns None when the bracket is not applicable."""
+    import scipy.constants
+    c = scipy.constants.c
+    z_lo, z_hi = sorted([float(p0[2]), float(p1[2])])
+    if not getattr(sol, "direct", False) or z_hi >= 0:
+        return None
+    d = float(np.linalg.norm(np.asarray(p1, dtype=float) - np.asarray(p0, dtype=float)))
+    dz = z_hi - z_lo
+    n_lo, n_hi = float(ice.index(z_lo)), float(ice.index(z_hi))     # n_lo >= n_hi
+    if not n_lo >= n_hi > 0:
+        return None
+    e = np.asarray(sol.emitted_direction, dtype=float)
+    sin_e = float(np.hypot(e[0], e[1]) / np.linalg.norm(e))
+    beta = float(ice.index(float(p0[2]))) * sin_e
+    lower = n_hi * d / c
+    upper = np.inf
+    if beta < n_hi * (1 - 1e-9):
+        cos_lo = np.sqrt(1 - (beta / n_lo) ** 2)
+        cos_hi = np.sqrt(1 - (beta / n_hi) ** 2)
+        lower = n_hi * max(d, dz / cos_lo) / c
+        upper = n_lo * (dz / cos_hi) / c
+    return lower * (1 - 1e-12), upper * (1 + 1e-12)
+
+
 def run_cell(cell, seed, tmpdir, case=None):
     """Run one cell of the real component matrix (two events) with its own PRNG; returns
     (stats, failure-or-None) where failure = (what, description)."""
@@ -638,6 +669,8 @@ def run_cell(cell, seed, tmpdir, case=None):
         if tn == "Layered" and rng.random() < 0.6:
             # an antenna exactly on the boundary between the two layers
             ant_pos[1] = (40, 10, float(ice.layers[0].valid_range[0]))
+        if tn in ("Specialized", "Basic") and rng.random() < 0.5:
+            ant_pos[-1] = (-30, 5, -rng.uniform(780, 950))
         bounds = ()
         if tn == "Uniform":
             bounds = (float(ice.valid_range[0]),)
@@ -746,6 +779,15 @@ def run_cell(cell, seed, tmpdir, case=None):
                                 bad = "%s: the same ray (tof %r, same directions) is listed twice among %d solutions" % (geo, sols[j1].tof, len(sols))
                     want = None
                     if tn in ("Specialized", "Basic"):
+                        # "delayed by that solution's time of flight": the delay must be physically possible
+                        for sol in sols:
+                            br = tof_bracket(ice, sol, p.vertex, a.position)
+                            if br is not None:
+                                stats["tof_bracket"] = stats.get("tof_bracket", 0) + 1
+                                if not (br[0] <= sol.tof <= br[1]) and not bad:
+                                    bad = ("%s: the direct ray's time of flight %.6e s is outside the physical bracket "
+                                           "[%.6e, %.6e] s (index between the endpoints x length of the reported ray)" % (
+                                               geo, sol.tof, br[0], br[1]))
                         if len(sols) not in (0, 2):
                             bad = "%s: %d ray solutions (the depth-dependent tracers have none or two)" % (geo, len(sols))
                         want = snell_count(ice, p.vertex, a.position)
@@ -761,6 +803,16 @@ def run_cell(cell, seed, tmpdir, case=None):
                             stats["vertical"] = stats.get("vertical", 0) + 1
                         if want != len(sols) and not bad:
                             bad = "%s: the tracer lists %d ray solutions, the independent ray count is %d" % (geo, len(sols), want)
+                            step = float(getattr(rt, "dz", 1.0))
+                            if (tn == "Basic" and want == 2 and not sols
+                                    and abs(float(p.vertex[2]) - float(a.position[2])) <= 1.05 * step):
+                                # known class (a defect of the numeric tracer itself, property C01): the
+                                # BasicRayTracer finds no ray when the endpoints are closer in depth than its
+                                # integration step; confirmed on the analytic tracer before being keyed
+                                from pyrex.ray_tracing import SpecializedRayTracer
+                                ref = SpecializedRayTracer(p.vertex, a.position, ice_model=ice)
+                                if ref.exists and len(ref.solutions) == 2:
+                                    desc["known_class"] = "component-misses-rays:BasicRayTracer:depth-difference-below-dz"
                     if bad:
                         break
                 if bad:
@@ -836,7 +888,9 @@ def run_matrix(ctx, tmpdir):
             stats["slowest"] = sorted(stats["slowest"] + [(round(_time.time() - t0, 2), key)], reverse=True)[:3]
             if bad:
                 cf = bad[1].get("component_failure")
-                if cf:
+                if bad[1].get("known_class"):
+                    ctx.fail(bad[1]["known_class"], bad[0], {"kind": "matrix", "cell_index": ci, "thorough": ctx.thorough, **bad[1]})
+                elif cf:
                     # the shipped ray tracer itself raises for this geometry when used directly: a defect of
                     # that tracer's numerics (property C01), which event() can only propagate.  One key per
                     # (tracer, exception) class; a systematic failure (> 2 cells) is reported under a distinct key.
@@ -849,6 +903,200 @@ def run_matrix(ctx, tmpdir):
                 else:
                     ctx.fail(key, bad[0], {"kind": "matrix", "cell_index": ci, "thorough": ctx.thorough, **bad[1]})
                 break
+    return stats
+
+
+
+# ------------------------------------------------------------------ sequences of events, AntennaSystem antennas
+SEQ_IMPORTS = ("From Coq Require Import List ZArith Bool.\nImport ListNotations.\n"
+               "From PyrexModel Require Import KernelModel KernelSeqModel.\nOpen Scope Z_scope.\n")
+
+
+def gen_sequence(seed, big):
+    """One kernel + one detector used for several events with reads and clears in between, on REAL components
+    (ray tracer, Askaryan model, AntennaSystem with a front end / plain Antenna).  Returns (description,
+    coq expression of the model run, implementation outputs as printed Coq values) or None (ambiguous tofs)."""
+    import random
+    from pyrex.kernel import EventKernel
+    from pyrex.antenna import Antenna
+    from pyrex.detector import AntennaSystem
+    from pyrex.particle import Particle, Event
+    from pyrex.generation import ListGenerator
+    from pyrex.ray_tracing import SpecializedRayTracer, UniformRayTracer
+    from pyrex.ice_model import AntarcticIce, UniformIce
+    from pyrex.askaryan import ZHSAskaryanSignal, AVZAskaryanSignal
+    rng = random.Random(seed)
+    np.random.seed(seed % (2 ** 31))
+    if rng.random() < 0.7:
+        tn, tr, ice = "Uniform", UniformRayTracer, UniformIce(1.6)
+    else:
+        tn, tr, ice = "Specialized", SpecializedRayTracer, AntarcticIce()
+    # FunctionSignal copies deep-copy the propagation filters of the specialized tracer (seconds once a few
+    # pulses have accumulated on an antenna): those sequences are kept short
+    small = tn == "Specialized"
+    mn, sm = rng.choice([("ZHS", ZHSAskaryanSignal), ("AVZ", AVZAskaryanSignal)])
+    grid = np.linspace(-20e-9, 80e-9, 128, endpoint=False)
+
+    class FrontEndSystem(AntennaSystem):
+        """antenna system in the style of the shipped ones: lead-in time, amplifying front end"""
+        lead_in_time = 5e-9
+
+        def __init__(self, position):
+            super().__init__(Antenna)
+            self.position = np.array(position, dtype=float)
+            self.setup_antenna(position=position, noisy=False)
+
+        def front_end(self, signal):
+            return signal * 2
+
+    nant = rng.choice([1, 2]) if small else rng.choice([1, 2, 2, 3])
+    kinds, ants = [], []
+    for i in range(nant):
+        pos = (rng.uniform(-40, 40), rng.uniform(-40, 40), -rng.uniform(40, 400))
+        k = rng.choice(["sys", "sys", "plain"])
+        kinds.append(k)
+        ants.append(FrontEndSystem(pos) if k == "sys" else Antenna(position=pos, noisy=False))
+    nev = 2 if small else rng.randint(2, 5 if big else 4)
+    events = []
+    for e in range(nev):
+        parts = [Particle(particle_id="electron_neutrino",
+                          vertex=[rng.uniform(-300, 300), rng.uniform(-300, 300), -rng.uniform(50, 900)],
+                          direction=[rng.uniform(-1, 1), rng.uniform(-1, 1), rng.uniform(-1, 1)],
+                          energy=10 ** rng.uniform(8, 9), interaction_type="cc")
+                 for _ in range(1 if small else rng.choice([1, 1, 2]))]
+        events.append(Event(parts))
+    gen = ListGenerator(events)
+    kernel = EventKernel(gen, ants, ice_model=ice, ray_tracer=tr, signal_model=sm, signal_times=grid,
+                         offcone_max=None, attenuation_interpolation=rng.choice([0.1, None]))
+    # expected ray solutions from fresh tracers: ids, and the grid origin that identifies each
+    pid_of, trace_rows, key2id, next_path, next_pid = {}, [], [{} for _ in ants], 100, 0
+    ev_parts = []
+    for ev in events:
+        ids = []
+        for p in ev:
+            next_pid += 1
+            pid_of[id(p)] = next_pid
+            ids.append(next_pid)
+            for ai, a in enumerate(ants):
+                rt = tr(p.vertex, a.position, ice_model=ice)
+                if not rt.exists:
+                    trace_rows.append("(%d, %d, None)" % (next_pid, ai + 1))
+                    continue
+                paths = []
+                for sol in rt.solutions:
+                    next_path += 1
+                    key = float(grid[0] + sol.tof)
+                    if key in key2id[ai]:
+                        return None                      # two rays with the same arrival grid: not identifiable
+                    key2id[ai][key] = (next_path, sol.tof)
+                    paths.append("(mkpath %d 0 (0, 0, 1) 0 0)" % next_path)
+                trace_rows.append("(%d, %d, Some %s)" % (next_pid, ai + 1, lst(paths)))
+        ev_parts.append(ids)
+
+    def ident(ai, sig):
+        hit = key2id[ai].get(float(sig.times[0]))
+        if hit is None:
+            return -1                                    # a signal on no ray solution's grid
+        return hit[0] if np.array_equal(sig.times, grid + hit[1]) else -2
+
+    # history
+    ops, outs, coq_ops = [], [], []
+    remaining = list(range(nev))
+
+    def do(op):
+        ops.append(op)
+        k = op[0]
+        if k == "SEvent":
+            e = remaining.pop(0)
+            r = kernel.event()
+            outs.append("ORet (RetEvent %d)" % (events.index(r) if r in events else -1))
+            coq_ops.append("SEvent %d %s %d" % (e, lst("(mkpart %d 1 None None (0, 0, 1) 0)" % q for q in ev_parts[e]), e + 1))
+            return
+        ai = op[1] if len(op) > 1 else None
+        coq_ops.append(k if ai is None else "%s %d" % (k, ai + 1))
+        if k == "SSignals":
+            outs.append("OList %s" % lst(zl(ident(ai, x)) for x in ants[ai].signals))
+        elif k == "SAllWaves":
+            outs.append("OList %s" % lst(zl(ident(ai, x)) for x in ants[ai].all_waveforms))
+        elif k == "SWaves":
+            outs.append("OList %s" % lst(zl(ident(ai, x)) for x in ants[ai].waveforms))
+        elif k == "SIsHit":
+            outs.append("OBool %s" % ("true" if ants[ai].is_hit else "false"))
+        elif k == "SClear":
+            ants[ai].clear()
+            outs.append("ODone")
+        elif k == "SClearAll":
+            for a in ants:
+                a.clear()
+            outs.append("ODone")
+
+    def reads(p):
+        for ai in range(nant):
+            for k in ("SSignals", "SAllWaves", "SWaves", "SIsHit"):
+                if rng.random() < p:
+                    do((k, ai))
+    while remaining:
+        do(("SEvent",))
+        reads(0.45)
+        r = rng.random()
+        if r < 0.55:
+            do(("SClearAll",))               # the simulation loop
+        elif r < 0.75:
+            do(("SClear", rng.randrange(nant)))
+        if rng.random() < 0.3:
+            reads(0.3)                       # reads of a cleared detector
+    reads(0.6)
+    expr = ("srun (mkcfg %s (tbl_trace %s) (tbl_sig []) 180 (WScalar 0) 0 TNone false 0) (fun _ => true) (k_init 0) %s" % (
+        lst(str(i + 1) for i in range(nant)), lst(trace_rows), lst(coq_ops)))
+    desc = {"seq_seed": seed, "tracer": tn, "model": mn, "antennas": kinds, "events": nev, "ops": [list(o) for o in ops]}
+    return desc, expr, outs
+
+
+def run_sequences(ctx):
+    n = ctx.n(24, 300)
+    scs = []
+    import signal as _signal
+
+    def _alarm(*a):
+        raise TimeoutError()
+    timeouts = 0
+    old_handler = _signal.signal(_signal.SIGALRM, _alarm)
+    try:
+        for i in range(n):
+            _signal.alarm(30)          # guard against pathological copying cost; a skipped sequence is not a verdict
+            try:
+                r = gen_sequence(ctx.seed * 100003 + i, ctx.thorough)
+            except TimeoutError:
+                timeouts += 1
+                r = None
+            finally:
+                _signal.alarm(0)
+            if r is not None:
+                scs.append(r)
+    finally:
+        _signal.signal(_signal.SIGALRM, old_handler)
+    stats = {"sequences": len(scs), "ops": sum(len(d["ops"]) for d, _, _ in scs),
+             "system_antennas": sum(d["antennas"].count("sys") for d, _, _ in scs), "skipped_slow": timeouts}
+    try:
+        vals = ctx.coq_eval_exprs(SEQ_IMPORTS, [e for _, e, _ in scs], chunk=60)
+    except Exception as e:
+        ctx.oblige("corr:seq-model-eval", False, str(e)[-1500:])
+        return stats
+    nbad = 0
+    for (desc, _, outs), v in zip(scs, vals):
+        m = [norm(x) for x in split_top(v)]
+        p = [norm(x) for x in outs]
+        ctx.case(key=("seq", desc["seq_seed"]), nontrivial=len(p) > 3, sample={"sequence": desc, "outputs": p[:12]})
+        if m != p:
+            nbad += 1
+            k = next((i for i in range(min(len(m), len(p))) if m[i] != p[i]), min(len(m), len(p)))
+            ctx.fail("seq:%d" % desc["seq_seed"],
+                     "sequence of events on one kernel/detector (%s, %s, antennas %s): after ops %s the implementation answers %s, "
+                     "the model (one signal per ray solution of the events since the last clear) %s" % (
+                         desc["tracer"], desc["model"], desc["antennas"], desc["ops"][:k + 1][-6:],
+                         p[k] if k < len(p) else "<end>", m[k] if k < len(m) else "<end>"),
+                     {"kind": "sequence", "seq_seed": desc["seq_seed"], "thorough": ctx.thorough})
+    ctx.oblige("corr:event-sequences", nbad == 0, "%d sequences disagree" % nbad if nbad else "")
     return stats
 
 
@@ -886,7 +1134,9 @@ def run(ctx):
     if data is not None:
         ctx.oblige("gen:prop (C03 translator)", data.get("prop_gen") == "ok", data.get("prop_gen", ""))
     ok_link = ctx.coq_build("C10_link")
-    ok = ok and ok_link
+    # sequences of events with AntennaSystem antennas, reads and clears in between
+    ok_seq = ctx.coq_build("C10_seq")
+    ok = ok and ok_link and ok_seq
     if data:
         ctx.extra["interface_pairs"] = len(data["table"])
         ctx.extra["kernel_call_sites"] = data["sites"]
@@ -938,6 +1188,11 @@ def run(ctx):
         corr_ok = nbad == 0
         ctx.oblige("corr:kernel-call-log", corr_ok, "%d scenarios disagree" % nbad if nbad else "")
     ctx.extra["correspondence"] = {"scenarios": len(scs), "events": sum(len(sc["events"]) for _, sc in scs), "call_kinds": cov}
+    try:
+        ctx.extra["sequences"] = run_sequences(ctx)
+    except Exception:
+        import traceback
+        ctx.oblige("corr:event-sequences", False, traceback.format_exc()[-1500:])
     # real matrix (always: it is cheap)
     tmpdir = tempfile.mkdtemp(prefix="c10-", dir=ctx.scratch)
     try:
@@ -993,6 +1248,17 @@ def replay(ctx, obj):
         print("%s called at kernel.py:%d with %d positional and keywords %s: %s" % (
             obj["callee"], obj["site"]["line"], obj["site"]["npos"], obj["site"]["kw"], "accepted" if good else "REJECTED: " + why))
         return 0 if good else 1
+    if obj.get("kind") == "sequence":
+        import logging
+        logging.disable(logging.CRITICAL)
+        desc, expr, outs = gen_sequence(obj["seq_seed"], obj.get("thorough", False))
+        p = [norm(x) for x in outs]
+        v = ctx.coq_eval_exprs(SEQ_IMPORTS, [expr])[0]
+        m = [norm(x) for x in split_top(v)]
+        for o, a, b in zip(desc["ops"], p, m):
+            print("  %-22s implementation %-40s model %s%s" % (o, a, b, "" if a == b else "   <-- differs"))
+        print("AGREE" if p == m else "DISAGREE")
+        return 0 if p == m else 1
     if obj.get("kind") == "matrix":
         import logging
         logging.disable(logging.CRITICAL)
